@@ -16,6 +16,9 @@ pub mod nitrogql_error { pub struct PositionedError { pub x: u8 } }
 //@ inline nitrogql_checker crates/checker/src mods=common,error,types,type_system_checker all=nitrogql_ast,graphql_type_system,nitrogql_semantics,nitrogql_checker,nitrogql_error
 //@   rewrite_re T-DROP 1 "(?s)impl From<CheckError> for PositionedError \\{.*?\\n\\}\\n" => "/* impl From<CheckError> for PositionedError dropped (nitrogql_error not inlined) */\n"
 //@   labelled_blocks is_mismatch:bool null_is_allowed:bool
+//@   rewrite T18 1 "let Value::ObjectValue(value) = value else {" => "let Value::ObjectValue(value__obj) = value else { /* vx:T18 alpha-renamed shadowing binding `value` -> `value__obj` */"
+//@   rewrite T18 1 "let value_field = value\n" => "let value_field = value__obj\n"
+//@   rewrite T18 2 "value.fields" => "value__obj.fields"
 //@   rewrite T11 1 "        mut self,\n" => "        self,\n"
 //@   rewrite T12 * "r#type:" => "type_:"
 //@   rewrite T12 * "r#enum:" => "enum_:"
